@@ -4,6 +4,7 @@ import contextlib
 import io
 import os
 import re
+import zlib
 import sys
 from fractions import Fraction
 
@@ -176,6 +177,7 @@ class ImplRun:
         # service sent re-entrantly from inside a callback)
         self.react = react or []
         self.react_all = react_all   # react also inside finished notifications
+        self.ncalls = 0
         self.pending = []          # canonical ids announced to function 0 and not yet finished
         self.nnot = 0
         self.mutate = mutate
@@ -201,7 +203,14 @@ class ImplRun:
         s = self.s
         for kind in ("TS", "TF", "SS", "SF"):
             self.register(kind, 0)
-        s.register_variable_access_function(self.var)
+        # the access function is replaced by a fresh wrapper before every later API call of
+        # about half of the cases (decided by the program text, so that a case replays): the
+        # scheduler has to ask the function registered LAST ("the values the engine holds at
+        # that moment"); a query that arrives through an older wrapper is recorded in self.stale
+        self.oracle_gen = 0
+        self.stale = []
+        self.reoracle = zlib.crc32(text.encode()) % 2 == 0
+        self._register_oracle()
 
     # -- identifiers -----------------------------------------------------
     def cid(self, kind, uuid):
@@ -312,6 +321,15 @@ class ImplRun:
                 self.pending.remove(e[5])
             self._react("SF")
 
+    def _register_oracle(self):
+        gen = self.oracle_gen
+
+        def access(name, ctx, gen=gen):
+            if gen != self.oracle_gen:
+                self.stale.append((gen, self.oracle_gen, name))
+            return self.var(name, ctx)
+        self.s.register_variable_access_function(access)
+
     def var(self, name, ctx):
         self.entries.append(("query", name, self.cid("t", ctx.uuid)))
         k = min(self.nq, len(self.vals) - 1)
@@ -349,6 +367,10 @@ class ImplRun:
             return self._call(op)
 
     def _call(self, op):
+        if self.reoracle and self.ncalls > 0:
+            self.oracle_gen += 1
+            self._register_oracle()
+        self.ncalls += 1
         if op[0] == "start":
             r = self.s.start()
         elif op[0] == "register":
